@@ -263,6 +263,10 @@ class GensProp(props.BaseProp):
                 return msgs
             if code != 0:
                 return ["%s: must succeed for 0 < p < 1, got %s" % (what, "a panic" if code == 100 else "code %s" % code)]
+            if 40 in by and by[40][1] and any(g < 0 for g in by[40][1][0]):
+                # hypothesis of the theorems (non-negative gaps), checked on the real stream of the seed
+                msgs.append("%s: the computed skip (ln(1-u)/ln(1-p)) as i64 is negative: %s"
+                            % (what, [g for g in by[40][1][0] if g < 0][:3]))
             nodes = [r[0] for r in by[2][1]]
             edges = [tuple(r) for r in by[3][1]]
             if nodes != list(range(max(n, 0))):
